@@ -437,6 +437,31 @@ pub fn run(rep: &mut StageReport, tier: &str, seed: u64) {
         }
     }
     rep.count("bare_header_cases", (lens.len() * 15) as u64);
+    // a frame whose length prefix exceeds the limit must be refused even when it is completely buffered when the
+    // decoder first looks at it (large read buffers present whole frames)
+    if !miri {
+        for (i, over) in [1usize, 2, 9, 40, 4096, 300_000].iter().enumerate() {
+            for ty in [5u8, 4, 7] {
+                for tail in [0usize, 9, 50] {
+                    rep.evaluations += 1;
+                    let l = LIMIT + over;
+                    let mut src = BytesMut::with_capacity(l + 64);
+                    src.extend_from_slice(&(l as u64).to_be_bytes());
+                    src.extend_from_slice(&[ty]);
+                    src.resize(9 + l + tail, 0);
+                    match catch_unwind(AssertUnwindSafe(|| MessageCodec.decode(&mut src))) {
+                        Ok(Err(_)) => {
+                            rep.distinct.insert(crate::common::mix(0xF011, (l as u64) << 8 | (ty as u64) << 2 | tail as u64 % 4));
+                        }
+                        Ok(Ok(Some(f))) => report(rep, Viol("limit/decoder-accepts-oversize".into(), format!("decoder produced a frame of type {} from a completely buffered frame whose length prefix is {} bytes (> 1 MiB)", f.get_type(), l)), i as u64, json!({"announced": l, "type": ty, "bytes_after_frame": tail})),
+                        Ok(Ok(None)) => report(rep, Viol("limit/decoder-waits-on-oversize".into(), format!("decoder answered `need more data` to a completely buffered frame whose length prefix is {} bytes", l)), i as u64, json!({"announced": l})),
+                        Err(_) => report(rep, Viol("panic/decode-oversize".into(), format!("decoder panicked on a completely buffered oversize frame ({} bytes)", l)), i as u64, json!({"announced": l})),
+                    }
+                }
+            }
+        }
+        rep.count("complete_oversize_frame_cases", 54);
+    }
 
     // ---- (2) streams of frames under every chunking -----------------------------------------------
     let n_streams = if miri { 8 } else if thorough { 100_000 } else { 8_000 };
